@@ -38,7 +38,7 @@ class C08(Check):
     ]
     required_labels = ["steps:0-copy", "steps>=1", "expect:value", "expect:error", "via:container", "via:schemaless",
                        "step:promote", "step:wrap-union", "step:drop-field", "step:reorder", "step:rename-type-alias", "step:enum-remove-default", "moved-definition"]
-    quick = (1500, 1)
+    quick = (5000, 1)
     thorough = (8000, 16)
 
     def __init__(self):
